@@ -147,18 +147,15 @@ def strip_strings(in_line: str, maintain_len: bool = False) -> str:
         Stripped string
     """
 
-    def repl_sq(m):
-        return "'{}'".format(" " * (len(m.group()) - 2))
+    def repl(m):
+        quote = m.group()[0]
+        return quote + " " * (len(m.group()) - 2) + quote
 
-    def repl_dq(m):
-        return '"{}"'.format(" " * (len(m.group()) - 2))
-
+    # Literals are recognised left to right, whichever quote opens them
     if maintain_len:
-        out_line = FRegex.SQ_STRING.sub(repl_sq, in_line)
-        out_line = FRegex.DQ_STRING.sub(repl_dq, out_line)
+        out_line = FRegex.STRING.sub(repl, in_line)
     else:
-        out_line = FRegex.SQ_STRING.sub("", in_line)
-        out_line = FRegex.DQ_STRING.sub("", out_line)
+        out_line = FRegex.STRING.sub("", in_line)
     return out_line
 
 
